@@ -75,9 +75,9 @@ theorem mem_attributeNodes_category (t : Tree) : ∀ k ∈ t.attributeNodes, k.v
   simpa using this
 
 /-- On well-ordered children the `skip_while`/`take_while` view sees every attribute child. -/
-theorem attrPairs_attributeNodes {v : Value} {ks : List Tree} (h : kidsOrdered ks = true) :
+theorem attrPairs_attributeNodes {v : Value} {ks : List Tree} (h : orderedKids ks = true) :
     attrPairs (Tree.node v ks).attributeNodes = attrPairs ks := by
-  unfold kidsOrdered at h
+  unfold orderedKids at h
   simp only [Tree.attributeNodes, Tree.kids]
   have e1 : ks = ks.takeWhile (fun k => k.value.category == .namespace) ++
       ks.dropWhile (fun k => k.value.category == .namespace) := (List.takeWhile_append_dropWhile).symm
@@ -99,11 +99,11 @@ theorem attrPairs_attributeNodes {v : Value} {ks : List Tree} (h : kidsOrdered k
   conv => rhs; rw [e1, attrPairs_append, hN, e2, attrPairs_append, hR]
   simp
 
-theorem attrs_of_ordered {v : Value} {ks : List Tree} (h : kidsOrdered ks = true) :
+theorem attrs_of_ordered {v : Value} {ks : List Tree} (h : orderedKids ks = true) :
     (Tree.node v ks).attrs = attrPairs ks := by
   rw [attrs_eq_attrPairs, attrPairs_attributeNodes h]
 
-theorem attrLen_of_ordered {v : Value} {ks : List Tree} (h : kidsOrdered ks = true) :
+theorem attrLen_of_ordered {v : Value} {ks : List Tree} (h : orderedKids ks = true) :
     (Tree.node v ks).attrLen = (attrPairs ks).length := by
   unfold Tree.attrLen
   rw [← attrPairs_attributeNodes (v := v) h, attrPairs_length_of_all (mem_attributeNodes_category _)]
@@ -111,7 +111,7 @@ theorem attrLen_of_ordered {v : Value} {ks : List Tree} (h : kidsOrdered ks = tr
 /-! ### `compareValue` with `==` is equality of canonical values -/
 
 theorem compareAttributes_strEq_iff {va vb : Value} {ka kb : List Tree}
-    (oa : kidsOrdered ka = true) (ob : kidsOrdered kb = true)
+    (oa : orderedKids ka = true) (ob : orderedKids kb = true)
     (na : attrNamesNodup ka = true) (nb : attrNamesNodup kb = true) :
     compareAttributes strEq (.node va ka) (.node vb kb) = true ↔
       sortAttrs (attrPairs ka) = sortAttrs (attrPairs kb) := by
@@ -136,7 +136,7 @@ theorem compareAttributes_strEq_iff {va vb : Value} {ka kb : List Tree}
     simp [this, hlen]
 
 theorem compareValue_strEq_iff {a b : Tree}
-    (oa : kidsOrdered a.kids = true) (ob : kidsOrdered b.kids = true)
+    (oa : orderedKids a.kids = true) (ob : orderedKids b.kids = true)
     (na : attrNamesNodup a.kids = true) (nb : attrNamesNodup b.kids = true) :
     compareValue strEq a b = true ↔ cvalue a.value a.kids = cvalue b.value b.kids := by
   obtain ⟨va, ka⟩ := a
@@ -160,7 +160,7 @@ theorem validList_iff (ks : List Tree) : Tree.valid.validList ks = true ↔ ∀ 
   | cons k ks ih => simp [Tree.valid.validList, ih]
 
 theorem valid_node {v : Value} {ks : List Tree} (h : (Tree.node v ks).valid = true) :
-    kidsOrdered ks = true ∧ attrNamesNodup ks = true ∧ (v.isNormal = true ∨ ks = []) ∧
+    orderedKids ks = true ∧ attrNamesNodup ks = true ∧ (v.isNormal = true ∨ ks = []) ∧
       ∀ k ∈ ks, k.valid = true := by
   simp only [Tree.valid, Bool.and_eq_true, Bool.or_eq_true, List.isEmpty_iff, validList_iff] at h
   exact ⟨h.1.1.1, h.1.1.2, h.1.2, h.2⟩
